@@ -12,6 +12,16 @@ Open Scope Z_scope.
    single frame of ds, or the announced-length prefix of the payload of one
    first frame of ds followed by consecutive frames of ds that come after it,
    in order, with sequence numbers 1,2,3,... (mod 16) *)
+(* (the announced length and the payload of a first frame, spelled out: the 12 bit length and the bytes behind it, or -- a
+   zero 12 bit length in a frame of at least six bytes, ISO 15765-2:2016 -- the 32 bit number which follows and the
+   bytes behind that) *)
+Theorem C13_announced_length_defs : forall d,
+  ff_len d = (if ff_esc d then be_len (take 4 (skipn 2 d)) else (nth 0 d 0 mod 16) * 256 + nth 1 d 0) /\
+  ff_pl d = (if ff_esc d then drop 4 (skipn 2 d) else skipn 2 d) /\
+  ff_esc d = ((nth 0 d 0 mod 16) * 256 + nth 1 d 0 =? 0) && (6 <=? blen d).
+Proof. intros d. repeat split. Qed.
+Print Assumptions C13_announced_length_defs.
+
 Theorem C13_provenance :
   forall (ds : list (list Z)) (t : list Z),
     In t (snd (slot_run slot0 ds)) -> justified ds t.
